@@ -71,6 +71,35 @@ def _count_chains(u, t):
     return sum(_count_chains(s, t) for s in u.__subclasses__() if issubclass(t, s))
 
 
+def late_class(sp, classes):
+    """One more class, defined after queries already walked the hierarchy: bases are one existing class or an
+    ordered pair of two.  Returns the class or None (CPython rejected the base order)."""
+    n = len(classes)
+    pairs = [(i, j) for i in range(n) for j in range(n) if i != j]
+    k = sp.choose(n + len(pairs), 'late-bases')
+    idx = (k,) if k < n else pairs[k - n]
+    bases = tuple(classes[i] for i in idx)
+    sp.note('class Late(%s)   # defined after the first queries' % ', '.join(b.__name__ for b in bases))
+    try:
+        late = type('Late', bases, {})
+    except TypeError as ex:
+        sp.note('  rejected by CPython: %s' % ex)
+        sp.cover('late-mro-rejected')
+        return None
+    sp.cover('late-class')
+    if len(bases) == 2:
+        sp.cover('late-two-bases')
+    return late
+
+
+def first_queries(sp, qtypes):
+    """Which types are queried before the late class exists: one of them, or all."""
+    k = sp.choose(len(qtypes) + 1, 'first-query')
+    pre = list(qtypes) if k == len(qtypes) else [qtypes[k]]
+    sp.note('first queries by %s' % ', '.join(t.__name__ for t in pre))
+    return pre
+
+
 # ------------------------------------------------------------------------------------------ components
 def oracle_components(sp, w, ents, types, when):
     """ents: entity -> {exact type: component}."""
@@ -116,7 +145,7 @@ FLAVOURS = [
 ]
 
 
-def h_components(sp, n=4, query_root=False, second='any', flavours=1):
+def h_components(sp, n=4, query_root=False, second='any', flavours=1, late=False):
     _tick()
     fname, fns = FLAVOURS[sp.choose(flavours, 'flavour')] if flavours > 1 else FLAVOURS[0]
     if fname != 'plain':
@@ -146,6 +175,29 @@ def h_components(sp, n=4, query_root=False, second='any', flavours=1):
         ents[2][classes[k]] = c
         sp.note('add_component(2, %s())' % classes[k].__name__)
     qtypes = classes + [root] if query_root else classes
+    if late:
+        # phase 2: a class defined (and instantiated) after the hierarchy was already queried
+        pre = first_queries(sp, qtypes)
+        try:
+            oracle_components(sp, w, ents, pre, 'before the late class')
+        except Exception as ex:     # noqa
+            sp.fail('op-raises', 'a query raised %r' % (ex,))
+        Late = late_class(sp, classes)
+        if Late is None:
+            sp.done()
+            return
+        if any(issubclass(Late, t) for t in pre):
+            sp.cover('late-under-queried')
+        try:
+            c = Late()
+            w.add_component(1, c)
+            ents[1][Late] = c
+            sp.note('add_component(1, Late())')
+            oracle_components(sp, w, ents, qtypes + [Late], 'after the late class')
+        except Exception as ex:     # noqa
+            sp.fail('op-raises', 'an operation after the late class raised %r' % (ex,))
+        sp.done()
+        return
     T = sp.pick(qtypes, 'query')
     sp.note('query type %s' % T.__name__)
     try:
@@ -205,13 +257,13 @@ def oracle_processors(sp, w, procs, order, types, when):
                          '%s: get_processor(%s) does not prefer the exact type' % (when, T.__name__))
 
 
-def h_processors(sp, n=4, query_root=False):
+def h_processors(sp, n=4, query_root=False, flavours=1, late=False):
     _tick()
-
-    class Root(desper.Processor):
-        def process(self, dt):
-            pass
-
+    fname, fns = FLAVOURS[sp.choose(flavours, 'flavour')] if flavours > 1 else FLAVOURS[0]
+    if fname != 'plain':
+        sp.cover('unusual-' + fname)
+        sp.note('processor instances are %s' % fname)
+    Root = type('Root', (desper.Processor,), dict(fns, process=lambda self, dt: None))
     classes = build_hierarchy(sp, n, Root, {})
     if classes is None:
         sp.done()
@@ -228,6 +280,29 @@ def h_processors(sp, n=4, query_root=False):
     sp.check(sorted(id(p) for p in order) == sorted(id(p) for p in procs.values()), 'processors-set',
              'processors lists %d objects, %d registered' % (len(order), len(procs)))
     qtypes = classes + [Root] if query_root else classes
+    if late:
+        pre = first_queries(sp, qtypes)
+        try:
+            oracle_processors(sp, w, procs, order, pre, 'before the late class')
+        except Exception as ex:     # noqa
+            sp.fail('op-raises', 'a query raised %r' % (ex,))
+        Late = late_class(sp, classes)
+        if Late is None:
+            sp.done()
+            return
+        if any(issubclass(Late, t) for t in pre):
+            sp.cover('late-under-queried')
+        try:
+            p = Late()
+            w.add_processor(p)
+            procs[Late] = p
+            order.append(p)         # same default priority: goes after the older ones (C07)
+            sp.note('add_processor(Late())')
+            oracle_processors(sp, w, procs, order, qtypes + [Late], 'after the late class')
+        except Exception as ex:     # noqa
+            sp.fail('op-raises', 'an operation after the late class raised %r' % (ex,))
+        sp.done()
+        return
     T = sp.pick(qtypes, 'query')
     sp.note('query type %s' % T.__name__)
     try:
@@ -267,10 +342,12 @@ def h_processors(sp, n=4, query_root=False):
 
 _TAGS = ['multiple-inheritance', 'several-routes', 'diamond', 'redundant-base', 'several-match',
          'only-subtypes-match', 'exact-among-several', 'removed', 'mro-rejected']
+_UNUSUAL = ['unusual-falsy', 'unusual-empty', 'unusual-all-equal', 'removed']
+_LATE = ['late-class', 'late-two-bases', 'late-under-queried', 'late-mro-rejected', 'multiple-inheritance']
 
 HARNESSES = {
-    'components': dict(fn=h_components, nontrivial=[t for t in _TAGS if t != 'mro-rejected'], required=_TAGS),
-    'processors': dict(fn=h_processors, nontrivial=[t for t in _TAGS if t != 'mro-rejected'], required=_TAGS),
+    'components': dict(fn=h_components, nontrivial=[t for t in _TAGS if t != 'mro-rejected'] + ['late-class'], required=_TAGS),
+    'processors': dict(fn=h_processors, nontrivial=[t for t in _TAGS if t != 'mro-rejected'] + ['late-class'], required=_TAGS),
 }
 
 TIERS = {
@@ -278,6 +355,9 @@ TIERS = {
         ('components', dict(n=4)),
         ('components', dict(n=3, flavours=4), dict(required=['unusual-falsy', 'unusual-empty', 'unusual-all-equal', 'removed'])),
         ('processors', dict(n=4)),
+        ('processors', dict(n=3, flavours=4), dict(required=_UNUSUAL)),
+        ('components', dict(n=3, late=True), dict(required=_LATE)),
+        ('processors', dict(n=3, late=True), dict(required=_LATE)),
     ],
     'thorough': [
         ('components', dict(n=5, second='last')),
@@ -285,6 +365,10 @@ TIERS = {
         ('components', dict(n=4, flavours=4), dict(required=['unusual-falsy', 'unusual-empty', 'unusual-all-equal', 'removed'])),
         ('processors', dict(n=5)),
         ('processors', dict(n=4, query_root=True)),
+        ('processors', dict(n=4, flavours=4), dict(required=_UNUSUAL)),
+        ('components', dict(n=4, late=True, second='last'), dict(required=_LATE)),
+        ('components', dict(n=3, late=True, query_root=True, flavours=4), dict(required=_LATE + _UNUSUAL[:3])),
+        ('processors', dict(n=4, late=True), dict(required=_LATE)),
     ],
 }
 BUDGET_S = {'quick': 120, 'thorough': 1500}
@@ -303,17 +387,24 @@ RULE = ('one evaluation = one feasible path = one (hierarchy, base order, owned 
         '(tag mro-rejected) are counted but trivial')
 BOUNDS = {
     'quick': 'n=4 classes below a fresh root: all 64 DAGs x 2 base orders, 16 owned subsets on entity 1, '
-             '0-1 component on entity 2, 4 query types; n=3 with falsy / empty / all-equal component instances; the same for Processor subclasses (16 registered subsets)',
+             '0-1 component on entity 2, 4 query types; n=3 with falsy / empty / all-equal instances; the same for Processor subclasses (16 registered subsets); '
+             'n=3 hierarchies + one class defined after a first round of queries (by one type or by all), 9 base choices, '
+             'then every query by every type including the late class',
     'thorough': 'n=5 classes: all 1024 DAGs x 2 base orders, 32 subsets, entity 2 empty or owning the last class, '
                 '5 query types; '
-                'n=4 additionally queried by the root class; the same for Processor subclasses',
+                'n=4 additionally queried by the root class; n=4 with unusual instances; the same for Processor '
+                'subclasses; late-class phase on n=4 (16 base choices) and on n=3 with root query and unusual instances',
 }
 ASSUMPTIONS = [
     'classes are created with type() and stay alive for the whole path; __subclasses__() is not overridden',
     'bases are listed in ascending or in descending creation order (the same for all classes of one hierarchy); '
     'orders CPython rejects are not hierarchies "Python accepts" and are skipped (tag mro-rejected)',
     'at most one component per exact type per entity, each attached once (replacement is C01)',
-    'component objects may be falsy (__bool__ False / __len__ 0) or compare equal to everything: identity is what counts',
+    'component and processor objects may be falsy (__bool__ False / __len__ 0) or compare equal to everything '
+    '(__eq__ always True, constant __hash__): identity is what counts',
+    'late phase: a class may be defined (one or two existing bases, either order) and instantiated after queries '
+    'have already walked the hierarchy; every query afterwards must see it ("for every hierarchy" is read as the '
+    'hierarchy at the time of the query)',
     'when several objects match and none has exactly the queried type, any matching object is accepted',
     'components and processors are plain (no event handlers; callbacks are C02/C07)',
     'processors are added with their class default priority 0, so `processors` keeps insertion order; only the '
